@@ -9,7 +9,8 @@ import os
 
 from harness import graphgen
 from harness.fw import VERIF, Check, Driver
-from harness.graphsweep import NPROC, large_tasks, short_diff, sweep
+from harness import graphhist
+from harness.graphsweep import HISTORY_NOTE, NPROC, history_tasks, large_tasks, short_diff, sweep
 
 CMD = "dom"
 CMD_LARGE = "domq"          # same model without the O(n^3) certificate check (graphs with thousands of nodes)
@@ -134,9 +135,9 @@ def idom_by_dataflow(G):
     return set(order), res
 
 
-def oracle(G, reply, dom, desc=None):
+def oracle(G, reply, dom, desc=None, case=None):
     n, entry = G[0], G[1]
-    case = {"large": desc} if desc else {"graph": graphgen.encode(G)}
+    case = case or ({"large": desc} if desc else {"graph": graphgen.encode(G)})
     if not graphgen.is_rooted(G):
         return []
     if dom is None:
@@ -177,6 +178,43 @@ def evaluate(G, desc=None):
             if any(dom[v] not in ("N", "-") and (int(dom[v]), v) not in edge for v in range(G[0])):
                 tags.append("idom_not_a_pred")
     return reply, fails, tags
+
+
+# ---------------------------------------------------------------- histories on one Graph object
+def canon_model_hist(reply: str) -> str:
+    # in a history only the returned dict is compared: a memoised answer legitimately does not re-run the DFS
+    return reply.split("|")[0]
+
+
+def hist_query(g, kind, case):
+    if kind != "idom":
+        return None
+    try:
+        d = g.immediate_dominators()
+        G, idx, dangling = graphhist.read_off(g)
+        extra = sorted(getattr(k, "name", "?") for k in d if k not in idx)
+        dom = ["-" if x not in d else "N" if d[x] is None else str(idx[d[x]]) if d[x] in idx else "gone:" + d[x].name
+               for x in g.nodes]
+        reply = "ok " + ",".join(dom)
+        if extra:
+            reply += " +keys-of-removed-nodes:" + ",".join(extra)
+        if dangling:
+            reply += " +dangling-edges:" + ",".join(dangling)
+    except RecursionError:
+        G, idx, _ = graphhist.read_off(g)
+        reply, dom = "recursion", None
+    except KeyError:
+        G, idx, _ = graphhist.read_off(g)
+        reply, dom = "err", None
+    fails = []
+    if graphgen.is_rooted(G):
+        if dom is not None and reply != "ok " + ",".join(dom):
+            fails.append(dict(case=case, what="the returned dict mentions nodes that are no longer in the graph", key=None,
+                              expected="keys = current nodes", observed=reply[-200:]))
+        else:
+            fails = oracle(G, reply, dom, case=case)
+    return {"request": CMD + " " + graphgen.encode(G), "real": reply, "fails": fails,
+            "tags": ["history_rooted_query"] if graphgen.is_rooted(G) else ["history_unrooted_query"]}
 
 
 # ---------------------------------------------------------------- corpus / tasks
@@ -220,11 +258,13 @@ def run(ck: Check):
     tasks = [{"kind": "list", "graphs": corpus_graphs(), "module": MODULE}]
     tasks += exhaustive_tasks(4 if ck.quick else 5, 16 if ck.quick else 256)
     if ck.quick and esc:
-        # a modelled function changed: every 16th five-node digraph on top of the quick scope
-        tasks += [{"kind": "exh", "n": 5, "lo": lo, "hi": lo + (1 << 14), "module": MODULE} for lo in range(0, 1 << 25, 1 << 18)]
+        # a modelled function changed: every 64th five-node digraph on top of the quick scope
+        tasks += [{"kind": "exh", "n": 5, "lo": lo, "hi": lo + (1 << 14), "module": MODULE} for lo in range(0, 1 << 25, 1 << 20)]
     ltasks, limit = large_tasks(MODULE, esc or not ck.quick)
-    tasks = ltasks + tasks
-    nrand = 960 if ck.quick and not esc else 16000
+    nhist = 480 if ck.quick and not esc else 2000 if ck.quick else 4000
+    tasks = ltasks + history_tasks(MODULE, "C18/%d" % ck.seed, nhist) + tasks
+    ck.notes.append(HISTORY_NOTE + "; %d histories" % nhist)
+    nrand = 960 if ck.quick and not esc else 4000 if ck.quick else 16000
     per = nrand // 32
     tasks += [{"kind": "random", "seed": "C18/%d/%d" % (ck.seed, i), "count": per, "max_n": 300, "module": MODULE}
               for i in range(32)]
@@ -249,9 +289,32 @@ def run(ck: Check):
     ck.notes.append("unrooted graphs are compared model-vs-code and certified, but not judged by the oracle: the property speaks of rooted graphs")
 
 
+def replay_history(c):
+    if "history" in c:
+        seed, index = c["history"]["seed"], int(c["history"]["index"])
+    else:
+        kv = dict(t.split("=") for t in c["request"].split(" ")[2:5])
+        seed, index = kv["seed"], int(kv["index"])
+    fam, G0, ops = graphhist.generate(seed, index)
+    print("start graph:", fam, graphgen.encode(G0)[:300])
+    import sys
+    rc = 0
+    for rec in graphhist.run(sys.modules[__name__], seed, index):
+        model = canon_model_hist(Driver(EXE).ask([rec["request"]])[0])
+        print("query %d after [%s]" % (rec["query"], "; ".join(graphhist.show_ops(ops[:rec["query"] + 1]))))
+        print("   current graph:", rec["request"][:200])
+        print("   real :", rec["real"][:200]); print("   model:", model[:200])
+        for f in rec["fails"]:
+            print("   oracle:", f["what"], "node", f["case"].get("node"), "expected", f["expected"], "observed", f["observed"])
+            rc = 1
+    return rc
+
+
 def replay(ck: Check, rp):
     c = rp.get("case") or rp.get("first_divergence", {})
     print("replay", json.dumps(c))
+    if "history" in c or " history seed=" in c.get("request", ""):
+        return replay_history(c)
     desc = c.get("large")
     rq = c.get("request", "")
     if not desc and " large family=" in rq:
